@@ -4,7 +4,7 @@
   tools/seeded.py import <worktree> <id> <property>   copy _seed/ of a sub-agent worktree
   tools/seeded.py confirm <id>    apply to a scratch copy of /repo: test suite counts + demo on both trees
   tools/seeded.py run <id> [props...] [--tier quick]   run checks against the patched scratch copy
-  tools/seeded.py all [--tier quick]                   run every seeded change against its property's check
+  tools/seeded.py all [first-id] [--tier quick]        run every seeded change (from first-id on) against its property's check
 '''
 import json
 import os
@@ -31,7 +31,7 @@ def scratch_copy(patch=None):
                                  capture_output=True, text=True)
         if res.returncode != 0:
             drop(tmp)
-            raise SystemExit(f'patch does not apply: {res.stderr}')
+            raise RuntimeError(f'patch does not apply: {res.stderr}')
     return tmp, dst
 
 
@@ -141,13 +141,27 @@ def main():
     elif args[0] == 'run':
         cmd_run(args[1], args[2:], tier, seed)
     elif args[0] == 'all':
-        missed = []
+        missed, stale, superseded = [], [], []
+        start = args[1] if len(args) > 1 else ''
         for sid in sorted(os.listdir(SEEDED)):
-            if not os.path.exists(os.path.join(SEEDED, sid, 'meta.json')):
+            mpath = os.path.join(SEEDED, sid, 'meta.json')
+            if not os.path.exists(mpath) or sid < start:
                 continue
-            res = cmd_run(sid, [], tier, seed)
+            with open(mpath) as fil:
+                if json.load(fil).get('superseded'):
+                    # a later repair of /repo made this change harmless
+                    superseded.append(sid)
+                    continue
+            try:
+                res = cmd_run(sid, [], tier, seed)
+            except RuntimeError as err:
+                print(f'{sid}: STALE {str(err)[:200]}')
+                stale.append(sid)
+                continue
             if not any(v[0] for v in res.values()):
                 missed.append(sid)
+        print('SUPERSEDED:', superseded)
+        print('STALE:', stale)
         print('MISSED:', missed)
 
 
